@@ -132,7 +132,13 @@ func newModel(c cfg) *model {
 		if c.Mode == "throttle-absolute" {
 			t = sharedConfig.RetryAfterAbsoluteEpoch
 		}
-		m.tc = &sharedConfig.ResponseBasedThrottlingConfig{RetryAfterHeader: "retry-after", RetryAfterType: t, RelevantStatuses: []int{429}}
+		hdr := "retry-after"
+		if c.Mode == "throttle-relative-capitalised" {
+			// the policy spells the header name as HTTP does; the engine hands the remedy
+			// lower-cased header names
+			hdr = "Retry-After"
+		}
+		m.tc = &sharedConfig.ResponseBasedThrottlingConfig{RetryAfterHeader: hdr, RetryAfterType: t, RelevantStatuses: []int{429}}
 	}
 	return m
 }
@@ -151,7 +157,7 @@ func (m *model) Apply(ei int) string {
 		hs := map[string]string{"h": "v"}
 		life := ttl
 		if m.thr != nil {
-			if m.c.Mode == "throttle-relative" {
+			if strings.HasPrefix(m.c.Mode, "throttle-relative") {
 				hs["retry-after"] = "2"
 			} else {
 				hs["retry-after"] = strconv.FormatInt(now.Unix()+2, 10)
@@ -227,7 +233,7 @@ func (m *model) Apply(ei int) string {
 		for a, b := range s.headers {
 			want[a] = b
 		}
-		if m.c.Mode == "throttle-relative" {
+		if strings.HasPrefix(m.c.Mode, "throttle-relative") {
 			got, perr := strconv.ParseFloat(er.Headers["retry-after"], 64)
 			if perr != nil {
 				why = append(why, "retry-after not a number: "+er.Headers["retry-after"])
@@ -285,7 +291,7 @@ func (m *model) Key() string {
 	return impl + "||" + strings.Join(cs, ",") + fmt.Sprintf("||ns=%d", now.UnixNano()%int64(time.Second))
 }
 
-var configs = []cfg{{"cache-tight"}, {"cache-overwrite"}, {"cache-roomy"}, {"throttle-relative"}, {"throttle-absolute"}}
+var configs = []cfg{{"cache-tight"}, {"cache-overwrite"}, {"cache-roomy"}, {"throttle-relative"}, {"throttle-absolute"}, {"throttle-relative-capitalised"}}
 
 func TestCheck(t *testing.T) {
 	r := mc.New("C12", "model_checking")
